@@ -366,6 +366,21 @@ def build_data(spec, libraries=None):
     return {("s%d" % i): d for i, d in enumerate(out)}
 
 
+def snapshot_data(data):
+    """Plain copies of every RVData inside a data argument (single / list / dict)."""
+    if hasattr(data, "rv"):
+        items = [("", data)]
+    elif hasattr(data, "items"):
+        items = [(str(k), v) for k, v in data.items()]
+    else:
+        items = [(str(i), v) for i, v in enumerate(data)]
+    out = []
+    for k, d in items:
+        out.append([k, np.array(d._t_bmjd, dtype=float), np.array(d.rv.value, dtype=float), str(d.rv.unit), np.array(d.rv_err.value, dtype=float), str(d.rv_err.unit),
+                    None if d.t_ref is None else float(d._t_ref_bmjd)])
+    return out
+
+
 class World:
     """Everything one run needs, built from config (dict)."""
 
@@ -379,6 +394,19 @@ class World:
         self.prior = get_prior(config["prior"])
         self.libraries = [Library(s) for s in config["libraries"]]
         self.datasets = [build_data(s, self.libraries) for s in config["datasets"]]
+        self.data_ref = [snapshot_data(d) for d in self.datasets]  # private copies: a call must not edit the user's data
+
+    def data_modified_in_place(self):
+        bad = []
+        for j, (d, ref) in enumerate(zip(self.datasets, self.data_ref)):
+            try:
+                now = snapshot_data(d)
+            except Exception as e:  # noqa: BLE001
+                bad.append((j, repr(e)))
+                continue
+            if tape.digest_obj(now) != tape.digest_obj(ref):
+                bad.append((j, "t / rv / rv_err / t_ref differ from what the user built"))
+        return bad
 
     def library_file(self, i):
         lib = self.libraries[i]
